@@ -65,13 +65,10 @@ impl<T> AsRef<[T]> for IntoIter<T> {
 
 impl<T: Clone> Clone for IntoIter<T> {
   fn clone(&self) -> IntoIter<T> {
-    let w = self.v.clone();
-    let pos_cpy = self.pos;
-    IntoIter {
-      v: w,
-      pos: pos_cpy,
-      marker: core::marker::PhantomData,
-    }
+    // clone exactly the elements that are still held, into storage of its own
+    let mut w = crate::MiniVec::<T>::new();
+    w.extend_from_slice(self.as_slice());
+    IntoIter::new(w)
   }
 }
 
